@@ -73,9 +73,11 @@ func ruleC07(c *Check) {
 	c.pricingTextPairs("C07.6")
 	c.newBatchRules("C07", map[string]bool{"supermode-charged": true})
 	c.paramGettersExact("C07.1", "KeyBaseDenom")
+	c.moduleServiceNotSuper("C07.7")
 }
 
 func ruleC13(c *Check) {
+	c.addressRoles("C13.7")
 	c.assume("A-SDK: sdk.Coins arithmetic is correct")
 	c.earnRules("C13")
 	c.withdrawRules("C13")
